@@ -175,6 +175,8 @@ class TelegramQueue:
                 self.outgoing_queue.task_done()
                 if self._rate_limiter:
                     self._rate_limiter.cancel()
+                    # don't await the cancelled task after a restart
+                    self._rate_limiter = None
                 break
 
             # limit rate to knx bus - defaults to 20 per second
